@@ -10,7 +10,7 @@
 (*   nm  the naming produced by the current writer:                         *)
 (*       [lang, feats, done, hasfresh,                                      *)
 (*        items  : Seq([kind, orig, named, name, back, fresh]),             *)
-(*        spaces : Seq([sec, var, multi, free, must, items : Seq(index)]),  *)
+(*        spaces : Seq([sec, items : Seq(index)]),  (flags: SecVar etc.)    *)
 (*        text   : Seq([names : Seq(name)])   (aligned with spaces, or <<>>)*)
 (*        tback  : Seq([s, n, ok, rn])]                                     *)
 (*       item.name  = look-up item -> name  (get_pddl_name / harvested)     *)
@@ -92,6 +92,15 @@ OrigFeature(lang, n) ==
 Det(N, i) == <<N.items[i].kind, OrigFeature(N.lang, N.items[i].orig)>>
 
 IsVar(it) == it.kind \in VarKinds
+\* namespaces by section name:
+\*  types objects fluents actions           model elements (PDDL); global (ANML / T1: all of them)
+\*  signature parameters                    the parameters of one fluent / action
+\*  scope top vars                          parameters + quantified variables of one action / of the problem-level
+\*                                          conditions (declared several times in the text: multi)
+\*  files                                   domain and problem name (text only: free)
+SecVar(sec) == sec \in {"signature", "parameters", "scope", "top", "vars"}
+SecMulti(sec) == sec \in {"scope", "top"}
+SecFree(sec) == sec = "files"
 NamesOf(N, S) == {N.items[i].name : i \in {j \in S : N.items[j].named}}
 \* names the language (or the writer) reserves in a section: `object` is PDDL's predefined root type and
 \* may be used without being declared; `total-cost` is the function the writer itself declares for costs
@@ -99,9 +108,10 @@ Builtin(N, s) == IF N.lang # "pddl" THEN {}
                  ELSE IF N.spaces[s].sec = "types" THEN {OBJECT}
                  ELSE IF N.spaces[s].sec = "fluents" THEN {TOTALCOST} ELSE {}
 
-\* a namespace with `must` is one all of whose elements are always emitted (types, objects, fluents and
-\* their signatures; the PDDL writer omits actions whose preconditions are trivially false)
-MustItem(N, i) == \E k \in DOMAIN N.spaces : N.spaces[k].must /\ i \in Rng(N.spaces[k].items)
+\* namespaces all of whose elements are always emitted (the PDDL writer omits actions whose preconditions
+\* are trivially false, and simplification may remove a quantifier)
+SecMust(sec) == sec \in {"types", "objects", "fluents", "signature", "global", "vars"}
+MustItem(N, i) == \E k \in DOMAIN N.spaces : SecMust(N.spaces[k].sec) /\ i \in Rng(N.spaces[k].items)
 Named(N) == {<<"Named", i, Det(N, i)>> : i \in {j \in DOMAIN N.items : N.done /\ MustItem(N, j) /\ ~N.items[j].named}}
 Valid(N) == {<<"Valid", i, Det(N, i)>> : i \in {j \in DOMAIN N.items :
                 N.items[j].named /\ ~ValidName(N.lang, IsVar(N.items[j]), N.items[j].name)}}
@@ -118,18 +128,18 @@ InverseLk(N) == {<<"Inverse", i, Det(N, i)>> : i \in {j \in DOMAIN N.items :
 \* the declarations of the emitted text, harvested independently of the look-ups
 TextValid(K, N) == {<<"TextValid", k, <<N.spaces[k].sec>> >> : k \in {s \in DOMAIN N.text :
                 \E q \in DOMAIN N.text[s].names :
-                   LET n == N.text[s].names[q] IN ~ValidName(N.lang, N.spaces[s].var, n) \/ Key(N.lang, n) \in K}}
+                   LET n == N.text[s].names[q] IN ~ValidName(N.lang, SecVar(N.spaces[s].sec), n) \/ Key(N.lang, n) \in K}}
 DupKeys(N, s) == {Key(N.lang, N.text[s].names[q]) : q \in {r \in DOMAIN N.text[s].names :
                     \E t \in DOMAIN N.text[s].names : t < r /\ Key(N.lang, N.text[s].names[t]) = Key(N.lang, N.text[s].names[r])}}
 TextDistinct(N) == {<<"TextDistinct", k,
                       <<N.spaces[k].sec, IF DupKeys(N, k) \subseteq KeySet(N.lang, Builtin(N, k)) THEN "reserved" ELSE "names">> >> :
-                    k \in {s \in DOMAIN N.text : ~N.spaces[s].multi /\ DupKeys(N, s) # {}}}
+                    k \in {s \in DOMAIN N.text : ~SecMulti(N.spaces[s].sec) /\ DupKeys(N, s) # {}}}
 TextAgrees(N) == {<<"TextAgrees", k, <<N.spaces[k].sec>> >> : k \in {s \in DOMAIN N.text :
-                /\ ~N.spaces[s].free
+                /\ ~SecFree(N.spaces[s].sec)
                 /\ LET H == Rng(N.text[s].names)
                        S == Rng(N.spaces[s].items)
                    IN ~ /\ (H \ Builtin(N, s)) \subseteq NamesOf(N, S)
-                        /\ ((IF N.spaces[s].must THEN NamesOf(N, S) ELSE {}) \ Builtin(N, s)) \subseteq H}}
+                        /\ ((IF SecMust(N.spaces[s].sec) THEN NamesOf(N, S) ELSE {}) \ Builtin(N, s)) \subseteq H}}
 \* tback[r] = [s (section), n, ok, rn]
 TextInverse(N) == {<<"TextInverse", q, <<N.spaces[N.tback[q].s].sec>> >> : q \in {r \in DOMAIN N.tback :
                 /\ N.tback[r].n \notin Builtin(N, N.tback[r].s)
